@@ -47,16 +47,21 @@ def ref_bytes(e) -> bytes:
     if t == 'uint':
         idx = {1: 0, 2: 1, 4: 2, 8: 3}[e[1]]
         return bytes([1 << 3 | idx]) + e[2].to_bytes(e[1], 'big')
+    if t == 'sint':
+        idx = {1: 0, 2: 1, 4: 2, 8: 3}[e[1]]
+        return bytes([2 << 3 | idx]) + e[2].to_bytes(e[1], 'big', signed=True)
     if t == 'uuid':
         idx = {2: 1, 4: 2, 16: 4}[e[1]]
         return bytes([3 << 3 | idx]) + e[2].to_bytes(e[1], 'big')
     if t == 'bool':
         return bytes([5 << 3, 1 if e[1] else 0])
-    if t in ('text', 'seq', 'url'):
+    if t in ('text', 'seq', 'url', 'alt'):
         if t == 'text':
             body, code = e[1], 4
         elif t == 'url':
             body, code = e[1].encode(), 8
+        elif t == 'alt':
+            body, code = b''.join(ref_bytes(x) for x in e[1]), 7
         else:
             body, code = b''.join(ref_bytes(x) for x in e[1]), 6
         n = len(body)
@@ -94,6 +99,10 @@ def to_bumble(e):
         return DE.url(e[1])
     if t == 'seq':
         return DE.sequence([to_bumble(x) for x in e[1]])
+    if t == 'alt':
+        return DE.alternative([to_bumble(x) for x in e[1]])
+    if t == 'sint':
+        return DE.signed_integer(e[2], e[1])
     raise ValueError(e)
 
 
@@ -116,6 +125,10 @@ def to_plain(de):
         return ('url', de.value if isinstance(de.value, str) else bytes(de.value).decode())
     if t == DE.SEQUENCE:
         return ('seq', [to_plain(x) for x in de.value])
+    if t == DE.ALTERNATIVE:
+        return ('alt', [to_plain(x) for x in de.value])
+    if t == DE.SIGNED_INTEGER:
+        return ('sint', de.value_size, de.value)
     return ('other', int(t), repr(de.value))
 
 
@@ -247,6 +260,33 @@ ATTR_LISTS = [
 
 def record_set(names):
     return {H[n]: RECORDS[n] for n in names}
+
+
+def _nest(depth, leaf, kind='seq'):
+    e = leaf
+    for _ in range(depth):
+        e = (kind, [e])
+    return e
+
+
+# records chosen for the SHAPE of their values (the statement says "any set of service records"): every record
+# carries class id 0x1101 so one pattern selects them all; handles 0x4000x
+SHAPES = {
+    'empties': [(0x0001, ('seq', [U16(0x1101)]))] + [(0x0300 + i, ('seq', [])) for i in range(40)] + [(0x0400, ('seq', [('seq', [U16(0x0100)])]))],
+    'empty_alts': [(0x0001, ('seq', [U16(0x1101)]))] + [(0x0300 + i, ('alt', [])) for i in range(36)] + [(0x0400, ('alt', [('seq', [('uint', 1, 9)])]))],
+    'wide': [(0x0001, ('seq', [U16(0x1101)])), (0x0300, ('seq', [('seq', [])] * 40 + [('seq', [('seq', [('uint', 2, 515)])])])), (0x0301, ('seq', [('uint', 1, i) for i in range(70)]))],
+    'deep': [(0x0001, ('seq', [U16(0x1101)])), (0x0300, _nest(20, ('uint', 1, 7))), (0x0301, _nest(12, U16(0x1105), 'alt')), (0x0302, ('seq', [_nest(9, ('nil',)), _nest(9, ('bool', False))]))],
+    'scalars': [(0x0001, ('seq', [U16(0x1101)])), (0x0300, ('uint', 8, 0xFFFFFFFFFFFFFFFF)), (0x0301, ('sint', 1, -128)), (0x0302, ('sint', 2, -1)), (0x0303, ('sint', 4, -(1 << 31))),
+                (0x0304, ('sint', 8, -2)), (0x0305, ('text', b'')), (0x0306, ('text', bytes(range(256)) + b'tail')), (0x0307, ('url', '')), (0x0308, ('bool', False)), (0x0309, ('nil',)), (0x030A, ('uint', 1, 0))],
+}
+
+
+def shape_records(names):
+    out = {}
+    for i, n in enumerate(names):
+        h = 0x40001 + list(SHAPES).index(n)
+        out[h] = [(0x0000, ('uint', 4, h))] + SHAPES[n]
+    return out
 
 
 def other_width(u):
